@@ -9,8 +9,8 @@ import (
 	"testing"
 
 	"istio.io/istio/pilot/pkg/model"
-	istiolog "istio.io/istio/pkg/log"
 	"istio.io/istio/pkg/config/schema/kind"
+	istiolog "istio.io/istio/pkg/log"
 	"istio.io/istio/pkg/util/sets"
 	"verif/harness/vlib"
 )
@@ -604,6 +604,12 @@ func runHistory(seed uint64, knd int, steps int) *hist {
 						m[n] = r.Intn(4)
 					}
 				}
+				// what a reconnecting client retained is mostly still current
+				for _, a := range h.w.addrs {
+					if r.Chance(50) {
+						m[a.Name] = a.Ver
+					}
+				}
 				if t == tWORKLOAD {
 					for n := range m {
 						if n > 40 {
@@ -697,11 +703,11 @@ func TestGen(t *testing.T) {
 	seed := vlib.Seed()
 	root := vlib.NewRand(seed)
 	id := 0
-	nh := vlib.Scale(260, 6000)
+	nh := vlib.Scale(128, 5000)
 	for i := 0; i < nh; i++ {
 		id++
 		hs := root.SubSeed()
-		knd := []int{0, 0, 0, 1, 2, 2, 3, 3}[i%8]
+		knd := []int{0, 0, 0, 1, 1, 2, 2, 3}[i%8]
 		if !c.Wanted(id) {
 			continue
 		}
@@ -746,6 +752,8 @@ func TestGen(t *testing.T) {
 	}
 	id = 100000
 	id = genHDelta(t, c, root.Sub(), id)
+	id = 200000
+	id = genPair(t, c, root.Sub(), id)
 	if err := c.Flush(); err != nil {
 		fmt.Fprintln(os.Stderr, err)
 		t.Fatal(err)
